@@ -44,7 +44,7 @@ def main():
             fail('cli.table.one_row_per_outcome', 'no table; ' + what + ' ' + err[-100:]); continue
         total = sum(int(c) for _, c, _ in rows)
         if total != shots * exits:
-            fail('cli.table.row_shows_outcome_and_count', 'counts sum to %d, expected %d; %s' % (total, shots * exits, what))
+            fail('cli.aggregate.adds_this_shots_counts', 'counts sum to %d, expected %d (shots x scope exits per shot); %s' % (total, shots * exits, what))
         bad = [(o, c, p) for o, c, p in rows if abs(float(p) - int(c) / total) > 0.0006]
         if bad or abs(sum(float(p) for _, _, p in rows) - 1.0) > 0.002 * len(rows):
             fail('cli.table.prob_is_count_over_total', 'probabilities are not count/total (total %d); %s' % (total, what))
